@@ -221,47 +221,7 @@ pub fn shard(ctx: &mut Ctx) {
     ctx.drive("where", case_strategy(max_rows, nq), n, check);
 }
 
-/// Hand-written regression case: explicit SQL with the expected ids written down (independent of the
-/// generators' known-finding exclusions).
-#[derive(Clone, Debug, Serialize, Deserialize)]
-pub struct SqlExpect {
-    pub table: LogicalTable,
-    pub layout: Layout,
-    pub sql: String,
-    pub expect_ids: Vec<i64>,
-    /// set for reproducers of a known finding: the failure carries the tag `sql_expect:<id>`
-    #[serde(default)]
-    pub kf: Option<String>,
-}
-
-fn check_sql_expect(c: &SqlExpect) -> Result<(), Failure> {
-    check_sql_expect_inner(c).map_err(|f| match &c.kf {
-        Some(id) => f.tag(format!("sql_expect:{}", id)),
-        None => f,
-    })
-}
-
-fn check_sql_expect_inner(c: &SqlExpect) -> Result<(), Failure> {
-    let (dbh, _dir) = qgen::realise(&c.table, &c.layout, "t")?;
-    let res = dbh.query(&c.sql).map_err(|f| Failure::from_fault(&f, &format!("`{}`", c.sql)))?;
-    match res {
-        Ok(out) => {
-            let got: Vec<Cell> = out.rows_any().into_iter().map(|r| r.into_iter().next().unwrap_or(Cell::Null)).collect();
-            let want: Vec<Cell> = c.expect_ids.iter().map(|i| Cell::Int(*i)).collect();
-            if got != want {
-                return Err(Failure::mismatch(format!("`{}`: kept ids {:?}, expected {:?}", c.sql, got, want)));
-            }
-            Ok(())
-        }
-        Err(e) => Err(Failure::mismatch(format!("`{}` failed: {}", c.sql, e.short()))),
-    }
-}
-
-pub fn replay(sub: &str, case: &Value, env: &mut CaseEnv) -> Result<(), Failure> {
-    if sub == "sql_expect" {
-        let c: SqlExpect = serde_json::from_value(case.clone()).map_err(bad_case)?;
-        return check_sql_expect(&c);
-    }
+pub fn replay(_sub: &str, case: &Value, env: &mut CaseEnv) -> Result<(), Failure> {
     let c: Case = serde_json::from_value(case.clone()).map_err(bad_case)?;
     check(&c, env)
 }
